@@ -218,7 +218,11 @@ func newCollectionFeatureFromYAML(y *exportedYAML) (*CollectionFeature, error) {
 
 	sorted := true
 	for j := 1; j < len(keys); j++ {
-		if less, err := b6.Less(keys[j], keys[j-1]); less || err != nil {
+		// The keys need to be comparable in either order for the binary
+		// search in FindValue: b6.Less compares a float with an int, but
+		// not an int with a float.
+		less, err := b6.Less(keys[j], keys[j-1])
+		if _, reversed := b6.Less(keys[j-1], keys[j]); less || err != nil || reversed != nil {
 			sorted = false
 			break
 		}
